@@ -15,10 +15,10 @@ pub assume_specification<T>[core::mem::replace::<T>](dest: &mut T, src: T) -> (r
 // =====================================================================================
 // Assumed contracts (trusted base; hand written)
 // =====================================================================================
-// IsographLangTokenKind is a #[derive(Logos)] enum (attribute macro: not extractable);
-// only equality with EndOfFile matters to the functions under contract.
-#[derive(Clone, Copy, PartialEq, Eq, Structural)]
-pub enum IsographLangTokenKind { EndOfFile, Other(u8) }
+// IsographLangTokenKind: the real enum (token_kind.rs) with its #[derive(Logos)] /
+// #[token] / #[regex] attributes stripped (the lexer logos generates from them is assumed by
+// contract below).
+//@item rel=crates/isograph_lang_parser/src/token_kind.rs kind=enum name=IsographLangTokenKind prefix="#[derive(Clone, Copy, PartialEq, Eq, Structural)] pub"
 #[derive(Clone, Copy, PartialEq, Eq, Structural)]
 pub struct IsographSemanticToken(pub u8);
 #[derive(Clone, Copy, PartialEq, Eq, Structural)]
@@ -27,7 +27,39 @@ pub struct Diagnostic { p: core::marker::PhantomData<u8> }
 pub type DiagnosticResult<T> = Result<T, Diagnostic>;
 #[verifier::external_body]
 pub fn parse_token_kind_diagnostic(expected: IsographLangTokenKind, found: IsographLangTokenKind, location: EmbeddedLocation) -> Diagnostic { unimplemented!() }
-pub mod semantic_token_legend { pub const ST_COMMENT: super::IsographSemanticToken = super::IsographSemanticToken(0); }
+/// isograph_lang_types::semantic_token_legend: the 29 token classes as opaque tags (their
+/// LSP fields play no role for spans)
+pub mod semantic_token_legend {
+    pub const ST_KEYWORD_USE: super::IsographSemanticToken = super::IsographSemanticToken(0);
+    pub const ST_KEYWORD_DECLARATION: super::IsographSemanticToken = super::IsographSemanticToken(1);
+    pub const ST_SERVER_OBJECT_TYPE: super::IsographSemanticToken = super::IsographSemanticToken(2);
+    pub const ST_DOT: super::IsographSemanticToken = super::IsographSemanticToken(3);
+    pub const ST_TO: super::IsographSemanticToken = super::IsographSemanticToken(4);
+    pub const ST_CLIENT_SELECTABLE_NAME: super::IsographSemanticToken = super::IsographSemanticToken(5);
+    pub const ST_OPEN_BRACE: super::IsographSemanticToken = super::IsographSemanticToken(6);
+    pub const ST_CLOSE_BRACE: super::IsographSemanticToken = super::IsographSemanticToken(7);
+    pub const ST_OPEN_PAREN: super::IsographSemanticToken = super::IsographSemanticToken(8);
+    pub const ST_CLOSE_PAREN: super::IsographSemanticToken = super::IsographSemanticToken(9);
+    pub const ST_OPEN_BRACKET: super::IsographSemanticToken = super::IsographSemanticToken(10);
+    pub const ST_CLOSE_BRACKET: super::IsographSemanticToken = super::IsographSemanticToken(11);
+    pub const ST_COMMA: super::IsographSemanticToken = super::IsographSemanticToken(12);
+    pub const ST_SELECTION_NAME_OR_ALIAS: super::IsographSemanticToken = super::IsographSemanticToken(13);
+    pub const ST_COLON: super::IsographSemanticToken = super::IsographSemanticToken(14);
+    pub const ST_SELECTION_NAME_OR_ALIAS_POST_COLON: super::IsographSemanticToken = super::IsographSemanticToken(15);
+    pub const ST_DIRECTIVE_AT: super::IsographSemanticToken = super::IsographSemanticToken(16);
+    pub const ST_DIRECTIVE: super::IsographSemanticToken = super::IsographSemanticToken(17);
+    pub const ST_ARGUMENT_NAME: super::IsographSemanticToken = super::IsographSemanticToken(18);
+    pub const ST_VARIABLE_DOLLAR_DECLARATION: super::IsographSemanticToken = super::IsographSemanticToken(19);
+    pub const ST_VARIABLE_DOLLAR_USAGE: super::IsographSemanticToken = super::IsographSemanticToken(20);
+    pub const ST_VARIABLE: super::IsographSemanticToken = super::IsographSemanticToken(21);
+    pub const ST_VARIABLE_EQUALS: super::IsographSemanticToken = super::IsographSemanticToken(22);
+    pub const ST_STRING_LITERAL: super::IsographSemanticToken = super::IsographSemanticToken(23);
+    pub const ST_NUMBER_LITERAL: super::IsographSemanticToken = super::IsographSemanticToken(24);
+    pub const ST_BOOL_OR_NULL: super::IsographSemanticToken = super::IsographSemanticToken(25);
+    pub const ST_OBJECT_LITERAL_KEY: super::IsographSemanticToken = super::IsographSemanticToken(26);
+    pub const ST_TYPE_ANNOTATION: super::IsographSemanticToken = super::IsographSemanticToken(27);
+    pub const ST_COMMENT: super::IsographSemanticToken = super::IsographSemanticToken(28);
+}
 
 /// logos::Lexer — contract of the generated lexer: `next` moves to a token that starts at
 /// or after the end of the previous one and ends inside the source; `span` reports it.
@@ -162,6 +194,23 @@ impl<'source> PeekableLexer<'source> {
         &&& tokens_ordered(self.semantic_tokens@)
         &&& forall|i: int| 0 <= i < self.semantic_tokens@.len() ==> (#[trigger] tok_span(self.semantic_tokens@[i])).end <= self.current.span.start
     }
+    /// still the same literal
+    pub open spec fn same_literal(&self, o: &Self) -> bool {
+        self.source == o.source && self.text_source == o.text_source && self.offset == o.offset
+    }
+    /// the cursor never moves backwards
+    pub open spec fn monotone(&self, o: &Self) -> bool {
+        self.end_index_of_last_parsed_token >= o.end_index_of_last_parsed_token && self.current.span.start >= o.current.span.start
+    }
+    /// at least the token that was current in `o` has been consumed: a span from the start of
+    /// that token to the end of the last parsed token is well-formed
+    pub open spec fn progressed(&self, o: &Self) -> bool {
+        self.end_index_of_last_parsed_token >= o.current.span.end
+    }
+    pub open spec fn not_moved(&self, o: &Self) -> bool {
+        self.current == o.current && self.semantic_tokens@ == o.semantic_tokens@
+            && self.end_index_of_last_parsed_token == o.end_index_of_last_parsed_token
+    }
 
 //@fn rel=crates/isograph_lang_parser/src/peekable_lexer.rs name=lexer_span within="impl<'source> PeekableLexer<'source>" vis=pub ret=r serves=C07
 //@sub "let span: Span = self\.lexer\.span\(\)\.into\(\);" => "let span: Span = Span::from_range(self.lexer.span());" n=1
@@ -183,7 +232,9 @@ impl<'source> PeekableLexer<'source> {
             // exactly one semantic token is appended: the span of the token handed out
             final(self).semantic_tokens@ == old(self).semantic_tokens@.push(WithGenericLocation { item: isograph_semantic_token, location: r.location }), //@O C07.O-1_semantic_token_appended_for_parsed_token
             final(self).source == old(self).source,
+            final(self).same_literal(old(self)),
             final(self).end_index_of_last_parsed_token == old(self).current.span.end,
+            final(self).current.span.start >= old(self).current.span.end,
 //@atend
         proof {
             assert(tokens_ordered(self.semantic_tokens@)) by {
@@ -252,6 +303,71 @@ impl<'source> PeekableLexer<'source> {
             // on a mismatch the cursor does not move
             r is Err ==> final(self).current == old(self).current && final(self).semantic_tokens@ == old(self).semantic_tokens@
                 && final(self).end_index_of_last_parsed_token == old(self).end_index_of_last_parsed_token, //@O C07.O-1_mismatch_does_not_advance
+            final(self).same_literal(old(self)), final(self).monotone(old(self)),
+            r is Ok ==> final(self).progressed(old(self)) && final(self).end_index_of_last_parsed_token == old(self).current.span.end,
+//@end
+
+//@fn rel=crates/isograph_lang_parser/src/peekable_lexer.rs name=parse_source_of_kind within="impl<'source> PeekableLexer<'source>" vis=pub ret=r serves=C07
+//@rw R4 R6b
+//@sub "self\.source\(kind\.location\.span\)\s*\.with_location\(kind\.location\)" => "WithGenericLocation::new(self.source(kind.location.span), kind.location)" n=1
+//@contract
+        requires old(self).inv(),
+        ensures
+            final(self).inv(), //@O C07.O-1_parse_source_of_kind_preserves_cursor_invariant
+            final(self).same_literal(old(self)), final(self).monotone(old(self)),
+            (r is Ok) == (old(self).current.item == expected_kind),
+            r is Ok ==> final(self).progressed(old(self)) && r->Ok_0.location.span == old(self).current.span
+                && r->Ok_0.location.span.end <= byte_len(old(self).source), //@O C07.O-1_source_of_kind_span_inside_literal
+            r is Err ==> final(self).not_moved(old(self)),
+//@end
+
+//@fn rel=crates/isograph_lang_parser/src/peekable_lexer.rs name=with_embedded_location_result within="impl<'source> PeekableLexer<'source>" vis=pub ret=r serves=C07
+//@rw R4 R6b
+//@hsub "do_stuff: impl FnOnce\(&mut Self\) -> Result<T, E>," => "do_stuff: F,"
+//@hsub "with_embedded_location_result<T, E>" => "with_embedded_location_result<T, E, F: FnOnce(&mut Self) -> Result<T, E>>"
+//@sub "result\s*\.with_span\(Span::new\(start, end\)\)" => "WithSpan::new(result, Span::new(start, end))" n=1
+//@contract
+        requires
+            old(self).inv(),
+            // what the callback must guarantee (the authors' comment: "If `do_stuff` parses nothing
+            // ... then end < start, and we will panic"): it can run on any well-formed cursor, keeps
+            // it well-formed on the same literal, and if it succeeds it has consumed a token
+            forall|x: &mut Self| x.inv() ==> #[trigger] do_stuff.requires((x,)),
+            forall|x: &mut Self, y: Result<T, E>| x.inv() && #[trigger] do_stuff.ensures((x,), y) ==>
+                final(x).inv() && final(x).same_literal(&*x) && final(x).monotone(&*x) && (y is Ok ==> final(x).progressed(&*x)),
+        ensures
+            final(self).inv(), //@O C07.O-4_with_embedded_location_result_preserves_cursor_invariant
+            final(self).same_literal(old(self)), final(self).monotone(old(self)),
+            r is Ok ==> final(self).progressed(old(self))
+                && r->Ok_0.location.span.start == old(self).current.span.start
+                && r->Ok_0.location.span.start <= r->Ok_0.location.span.end
+                && r->Ok_0.location.span.end <= byte_len(old(self).source), //@O C07.O-4_located_span_well_formed_and_inside_literal
+//@end
+
+//@fn rel=crates/isograph_lang_parser/src/peekable_lexer.rs name=with_embedded_location_optional_result within="impl<'source> PeekableLexer<'source>" vis=pub ret=r serves=C07
+//@rw R4 R6b
+//@hsub "do_stuff: impl FnOnce\(&mut Self\) -> Result<Option<T>, E>," => "do_stuff: F,"
+//@hsub "with_embedded_location_optional_result<T, E>" => "with_embedded_location_optional_result<T, E, F: FnOnce(&mut Self) -> Result<Option<T>, E>>"
+//@sub "debug_assert!\(\s*result\.is_some\(\) \|\| \(start == self\.current\.span\.start\),[^;]*\);" => "assert(result is Some || start == self.current.span.start);" n=1
+//@sub "result\s*\.map\(\|value\| \{\s*value\s*\.with_span\(Span::new\(start, end\)\)\s*\.to_with_embedded_location\(self\.text_source\)\s*\}\)" => "(match result { Some(value) => Some(WithSpan::new(value, Span::new(start, end)).to_with_embedded_location(self.text_source)), None => None })" n=1
+//@contract
+        requires
+            old(self).inv(),
+            // the callback either parses something (then it has consumed a token) or parses
+            // nothing and leaves the cursor where it was (the authors' debug_assert, here PROVED)
+            forall|x: &mut Self| x.inv() ==> #[trigger] do_stuff.requires((x,)),
+            forall|x: &mut Self, y: Result<Option<T>, E>| x.inv() && #[trigger] do_stuff.ensures((x,), y) ==>
+                final(x).inv() && final(x).same_literal(&*x) && final(x).monotone(&*x)
+                && (y is Ok && y->Ok_0 is Some ==> final(x).progressed(&*x))
+                && (y is Ok && y->Ok_0 is None ==> final(x).current.span.start == x.current.span.start),
+        ensures
+            final(self).inv(), //@O C07.O-4_with_embedded_location_optional_result_preserves_cursor_invariant
+            final(self).same_literal(old(self)), final(self).monotone(old(self)),
+            r is Ok && r->Ok_0 is Some ==> final(self).progressed(old(self))
+                && r->Ok_0->Some_0.location.span.start == old(self).current.span.start
+                && r->Ok_0->Some_0.location.span.start <= r->Ok_0->Some_0.location.span.end
+                && r->Ok_0->Some_0.location.span.end <= byte_len(old(self).source), //@O C07.O-4_optional_located_span_well_formed_and_inside_literal
+            r is Ok && r->Ok_0 is None ==> final(self).current.span.start == old(self).current.span.start,
 //@end
 
 //@fn rel=crates/isograph_lang_parser/src/peekable_lexer.rs name=white_space_span within="impl<'source> PeekableLexer<'source>" vis=pub ret=r serves=C07
@@ -260,6 +376,24 @@ impl<'source> PeekableLexer<'source> {
         ensures r.start == self.end_index_of_last_parsed_token, r.end == self.current.span.start, r.start <= r.end, //@O C07.O-2_white_space_span_well_formed
 //@end
 }
+
+// ---- call sites of the span combinators in parse_iso_literal.rs (closure contracts spliced) ----
+//@fn rel=crates/isograph_lang_parser/src/parse_iso_literal.rs name=parse_up_to_three_dots vis=pub ret=r serves=C07
+//@rw R4 R6 R6b
+//@hsub "tokens: &mut PeekableLexer\)" => "tokens: &mut PeekableLexer<'_>)"
+//@contract
+    requires old(tokens).inv(),
+    ensures
+        final(tokens).inv(), //@O C07.O-4_parse_up_to_three_dots_preserves_cursor_invariant
+        final(tokens).same_literal(old(tokens)), final(tokens).monotone(old(tokens)),
+        r is Some ==> r->Some_0.span.start <= r->Some_0.span.end && r->Some_0.span.end <= byte_len(old(tokens).source), //@O C07.O-4_fragment_spread_location_well_formed
+//@closure 1 params="tokens: &mut PeekableLexer<'_>" ret="cr: Result<(), Diagnostic>"
+            requires old(tokens).inv(),
+            ensures final(tokens).inv(), final(tokens).same_literal(old(tokens)), final(tokens).monotone(old(tokens)),
+                cr is Ok ==> final(tokens).progressed(old(tokens)),
+//@closure 2 params="x: WithEmbeddedLocation<()>" ret="m: EmbeddedLocation"
+            ensures m == x.location,
+//@end
 
 // ---- string / block-string callbacks of the logos lexer (token_kind.rs) ---------------
 /// `i` is a char boundary of `s` (logos::Lexer::bump panics "Invalid Lexer bump" otherwise)
